@@ -183,6 +183,9 @@ type Segment struct {
 
 var topKeywords = map[string]bool{"package": true, "import": true, "let": true, "type": true, "package_info": true}
 
+// IsTopKeyword: does the identifier open a top-level item?
+func IsTopKeyword(s string) bool { return topKeywords[s] }
+
 // Segments cuts a token stream at column-0 top-level keywords.  `and` continues a type group.
 func Segments(toks []Tok) []Segment {
 	var segs []Segment
